@@ -34,3 +34,23 @@ Definition wf (p : program) : bool :=
 
 Definition judge_spec (c : program * obs) : N :=
   if wf (fst c) then (if prop (fst c) (snd c) then 0 else 2)%N else 4%N.
+
+(* the definition-reference stream: 'x = tgt' (x used by nothing) is represented by the pair [Assign x ext 0; Ref tgt] --
+   the reference inside a definition is resolved with the state of its own statement and forced at link time, i.e. it is
+   a use site at that position.  The pair emits a word the real statement does not, so only the outcome class and the
+   set of error identifiers are compared here, never the words. *)
+Definition class_agrees (o : outcome) (ob : obs) : bool :=
+  match o, ob with
+  | OutOk _, ObsOk _ _ => true
+  | OutFail es, ObsFail ids => same_errors es ids
+  | _, _ => false
+  end.
+
+Definition prop_class (p : program) (ob : obs) : bool :=
+  match spec_run FUEL p with
+  | Ok o => class_agrees o ob
+  | _ => false
+  end.
+
+Definition judge_class_spec (c : program * obs) : N :=
+  if wf (fst c) then (if prop_class (fst c) (snd c) then 0 else 2)%N else 4%N.
